@@ -4,6 +4,9 @@
 (* Declarative meaning of "well-formed" and of the lossy result, next to the *)
 (* machine the code implements: three passes (appenders, root references,   *)
 (* loggers) with the logger pass registering a name *before* validating it. *)
+(* The input is the sequence of declarations; how it reaches the builder -   *)
+(* appender() / logger() one at a time, appenders() / loggers() in bulk, or  *)
+(* any mixture of the two - is not an input (the replay varies it).          *)
 (***************************************************************************)
 EXTENDS Integers, Sequences, FiniteSets, TLC
 
